@@ -71,6 +71,44 @@ func parseVal(s string) (Val, string) {
 	return atom(s[:i]), s[i:]
 }
 
+// bytesExpr expands a byte-string atom: parts joined by "+", each part hex or "r<count>x<hex>" (hex repeated
+// count times), e.g. "r10922xe4b8ad+61" = 10922 times the three bytes of a CJK character, then 'a'.
+func bytesExpr(a string) []byte {
+	if a == "-" {
+		return nil
+	}
+	var out []byte
+	for _, part := range strings.Split(a, "+") {
+		if strings.HasPrefix(part, "r") {
+			i := strings.Index(part, "x")
+			n, err := strconv.Atoi(part[1:i])
+			if err != nil {
+				panic(err)
+			}
+			unit := unhx(part[i+1:])
+			for k := 0; k < n; k++ {
+				out = append(out, unit...)
+			}
+		} else {
+			out = append(out, unhx(part)...)
+		}
+	}
+	return out
+}
+
+// hxs prints a byte string: hex up to 2048 bytes, otherwise "#<len>.<FNV-1a 64>" (the driver prints the same).
+func hxs(b []byte) string {
+	if len(b) <= 2048 {
+		return hx(b)
+	}
+	h := uint64(14695981039346656037)
+	for _, x := range b {
+		h ^= uint64(x)
+		h *= 1099511628211
+	}
+	return fmt.Sprintf("#%d.%016x", len(b), h)
+}
+
 // ---------- types ----------
 
 type Ty struct {
@@ -241,8 +279,8 @@ var (
 		get:  func(p *pk.Double) string { return hexU(math.Float64bits(float64(*p)), 16) },
 		junk: func(p *pk.Double) { *p = pk.Double(math.Float64frombits(0x5a5a5a5a5a5a5a5a)) }, zero: atom("0000000000000000")}
 	dString = desc[pk.String]{ty: "string",
-		set:  func(p *pk.String, v Val) { *p = pk.String(unhx(v.A)) },
-		get:  func(p *pk.String) string { return hx([]byte(*p)) },
+		set:  func(p *pk.String, v Val) { *p = pk.String(bytesExpr(v.A)) },
+		get:  func(p *pk.String) string { return hxs([]byte(*p)) },
 		junk: func(p *pk.String) { *p = "junk" }, zero: atom("-")}
 	dPosition = desc[pk.Position]{ty: "position",
 		set: func(p *pk.Position, v Val) {
@@ -262,15 +300,15 @@ var (
 			}
 		}, zero: atom(strings.Repeat("0", 32))}
 	dByteArray = desc[pk.ByteArray]{ty: "bytearray",
-		set:  func(p *pk.ByteArray, v Val) { *p = pk.ByteArray(unhx(v.A)) },
-		get:  func(p *pk.ByteArray) string { return hx(*p) },
+		set:  func(p *pk.ByteArray, v Val) { *p = pk.ByteArray(bytesExpr(v.A)) },
+		get:  func(p *pk.ByteArray) string { return hxs(*p) },
 		junk: func(p *pk.ByteArray) { *p = pk.ByteArray([]byte{0xaa, 0xbb, 0xcc}[:2]) },
 		prep: func(p *pk.ByteArray, mode int, target Val) {
-			*p = pk.ByteArray(sliceFor(mode, len(unhx(target.A)), func(b *byte) { *b = 0xaa }))
+			*p = pk.ByteArray(sliceFor(mode, len(bytesExpr(target.A)), func(b *byte) { *b = 0xaa }))
 		}, zero: atom("-")}
 	dPlugin = desc[pk.PluginMessageData]{ty: "pluginmsg",
-		set:  func(p *pk.PluginMessageData, v Val) { *p = pk.PluginMessageData(unhx(v.A)) },
-		get:  func(p *pk.PluginMessageData) string { return hx(*p) },
+		set:  func(p *pk.PluginMessageData, v Val) { *p = pk.PluginMessageData(bytesExpr(v.A)) },
+		get:  func(p *pk.PluginMessageData) string { return hxs(*p) },
 		junk: func(p *pk.PluginMessageData) { *p = pk.PluginMessageData("junk") }, zero: atom("-")}
 	dBitSet = desc[pk.BitSet]{ty: "bitset",
 		set: func(p *pk.BitSet, v Val) {
